@@ -1,5 +1,5 @@
 """C05 - arbitrary input never corrupts memory, leaks, hangs or leaves partial results (partial)"""
-from props import comps, comps_iff, comps_json, comps_types
+from props import comps, comps_iff, comps_json, comps_jsonnum, comps_robust, comps_types
 
 PID = "C05"
 LEVEL = "proof"
@@ -7,11 +7,11 @@ ASAN_QUICK = True            # the correspondence runs also on the ASan+UBSan bu
 
 
 def components():
-    # index-style model with explicit out-of-bounds answers (if-feature compiler) and list-style lexers whose models cannot
-    # read past the end of the input: agreement of the C code with them on truncated / malformed inputs under ASan+UBSan is
-    # what ties the no-out-of-bounds theorems to the code
+    # index-style models with explicit out-of-bounds answers (if-feature compiler, JSON number lexer + exponent normaliser)
+    # and list-style lexers whose models cannot read past the end of the input: agreement of the C code with them on
+    # truncated / malformed inputs under ASan+UBSan is what ties the no-out-of-bounds theorems to the code
     return [comps_iff.IffCompile(), comps_iff.IffValue(), comps.Utf8(), comps.XmlVal(), comps_json.JsonStr(),
-            comps_types.Dec64Next()]
+            comps_types.Dec64Next(), comps_jsonnum.JsonNum()]
 
 
 def oracles_():
@@ -19,18 +19,40 @@ def oracles_():
     o.quick_sanitize = True
     e = comps_types.Dec64ExactBuf()
     e.quick_sanitize = True
-    return [o, e]
+    # numbers around the uint16_t window of lyjson_exp_number (the list-based model is too slow for 65535-byte texts)
+    n = comps_jsonnum.JsonNumLong()
+    # SEARCH (no proof): every parsing entry point under ASan+UBSan+LSan with post-condition and context-health checks
+    r = comps_robust.Robust()
+    return [o, e, n, r]
 
 
 MANIFEST = {
-    "text": "Coq theorem C05_iffeature_no_oob: for EVERY byte string, module version and feature table the model of "
+    "text": "Coq theorems. C05_iffeature_no_oob: for EVERY byte string, module version and feature table the model of "
             "lys_compile_iffeature()/lysc_iffeature_value() (index style: every access to the expression array, the feature "
             "array, the operator stack and the input answers Oob outside its extent) never goes out of bounds, terminates within "
-            "its fuel and never requests an absurd allocation; the lexer models (UTF-8 decoder, XML value lexer, JSON string "
-            "lexer, decimal64 parser) are structural recursions on the input list and cannot read past its end. Tie: extracted "
-            "models vs the C functions on generated, malformed and truncated inputs under ASan+UBSan (T2), crash-isolated.",
+            "its fuel and never requests an absurd allocation. C05_jsonnum_no_oob: for EVERY byte string shorter than 4 GiB the "
+            "model of lyjson_number()/lyjson_number_is_zero()/lyjson_count_in_row()/lyjson_exp_number()/"
+            "lyjson_exp_number_copy_num_part()/lyjson_get_buffer_for_number() (index style: reads outside the text + NUL, stores "
+            "outside the malloc'ed block, failed assert()s and wrapped memset sizes all answer Oob; uint16/int32/uint32/uint64 and "
+            "strtoll modelled with their widths) never answers Oob and ends within its fuel; C05_jsonnum_len_bounded: the block has "
+            "exactly buf_len+1 <= 22 bytes, the bytes stored before the NUL are buf_len or buf_len+1, exact outside layout 2, and the "
+            "value handed on holds no unwritten byte; C05_jsonnum_len_exact_refuted / C05_jsonnum_denotes_refuted(_silent): layout 2 "
+            "(leading `0.`, new decimal point inside the digits) stores one byte more than it counts and produces another number "
+            "(0.5E1 -> `.`, 0.0055E3 -> `55`), inside the allocation. The lexer models (UTF-8 decoder, XML value lexer, JSON string "
+            "lexer, decimal64 parser) are structural recursions on the input list and cannot read past its end. Tie: extracted models "
+            "vs the C functions on generated, exhaustive-short, malformed and truncated inputs under ASan+UBSan (T2), crash-isolated.",
     "note": "Partial by nature: memory safety of the remaining C code, allocator failure paths, leaks and stack depth are runtime "
-            "behaviour no executable Gallina model exhibits; they are only searched (sanitizer builds). Modelled C: "
-            "lys_compile_iffeature, lysc_iffeature_value, ly_getutf8, lyxml_parse_value, lyjson_string, lyplg_type_parse_dec64.",
-    "technique": "Coq proof (bounds/termination of index-style model) + differential correspondence under ASan/UBSan",
+            "behaviour no executable Gallina model exhibits. Modelled C (with proofs): lys_compile_iffeature, lysc_iffeature_value, "
+            "ly_getutf8, lyxml_parse_value, lyjson_string, lyplg_type_parse_dec64, lyjson_number, lyjson_exp_number (+ helpers). "
+            "NOT modelled, only SEARCHED by the oracle `robust` (impl/t_robust.c, structure-aware mutation of valid seeds under "
+            "ASan+UBSan with a leak check per case, a CPU limit per case, dictionary reference counts, log-location stack, module list and "
+            "a health workload compared with a fresh context): lys_parse_mem (YANG, YIN, pattern and if-feature inside modules), "
+            "lyd_parse_data_mem (XML, JSON x STRICT/ONLY/OPAQ/NO_STATE/ORDERED x PRESENT/NO_STATE/MULTI_ERROR), lyd_parse_op "
+            "(RPC/notification/reply, YANG + NETCONF + RESTCONF envelopes), lyd_find_xpath, lyd_eval_xpath4, lys_find_xpath, "
+            "lyd_find_path, lyd_new_path, lyd_value_validate (all built-in types, ietf-inet-types, ietf-yang-types), ly_pattern_match. "
+            "LYB input is documented as trusted and is not fuzzed. The pointer VALUES lyjson_exp_number forms outside the text without "
+            "dereferencing them (C11 6.5.6p8) are not covered by the model. The defects the search found are listed in "
+            "known_findings.d/robust.json.",
+    "technique": "Coq proof (bounds/termination of index-style models) + differential correspondence under ASan/UBSan + sanitizer-guided "
+                 "mutation search with post-condition oracle",
 }
